@@ -828,7 +828,11 @@ def write_pam(matrix, matrix_size, out, scale=1, border=None, dark='#000', light
     colours = None
     if not is_rgb and transparency:
         depth = 2
-        colours = (b'\x01\x00', b'\x00\x01')
+        # Sample values: 0 = black, 1 = white
+        colours = (b'\x00\x00', b'\x01\x01') if _color_is_white(stroke_color) else (b'\x01\x00', b'\x00\x01')
+    elif not is_rgb and not (_color_is_black(stroke_color) and _color_is_white(bg_color)):
+        # BLACKANDWHITE but not black on white: 0 = black, 1 = white
+        colours = tuple(b'\x01' if _color_is_white(clr) else b'\x00' for clr in (bg_color, stroke_color))
     elif is_rgb:
         maxval = 255  # The color components are in range 0 .. 255
         depth = 3 if not transparency else 4
